@@ -41,6 +41,7 @@ NewChild(key, work) ==
     member |-> TRUE,      \* groups: currently a member (inserted, not yielded/ended/removed)
     work   |-> work,      \* concurrent streams: a per-item work future
     item   |-> -1,        \* concurrent streams: the source item this work future processes
+    layer  |-> -2,        \* concurrent streams: map layer (0..), -1 = the terminal closure
     idx    |-> -1 ]       \* concurrent streams: enumerate index reported at creation
 
 IsSubFam(f) == f \in {"join", "try_join", "merge", "zip", "future_group", "stream_group"}
@@ -50,13 +51,19 @@ IsConcFam(f) == f \in {"join", "try_join", "race", "race_ok", "merge", "zip", "f
 MonInit(e) ==
   [ fam |-> e.fam, cont |-> e.cont, n |-> e.n, feat |-> e.feat, stream |-> e.stream,
     sub |-> e.sub, never |-> Range(e.never), x |-> e.x, limit |-> e.limit, term |-> e.term,
-    stack |-> e.stack,
+    stack |-> e.stack, take |-> e.take,
+    nmaps |-> e.nmaps,
+    cur |-> << >>,          \* concurrent streams: source item -> latest value derived from it
     phase |-> "new",        \* "new" | "idle" | "inpoll" | "dropping" | "dropped"
     final |-> FALSE,        \* the combinator has produced its final result
     lastRet |-> "none",     \* "none" | "pending" | "item" | "final"
     g |-> -1, woken |-> FALSE, infire |-> FALSE,
     ch |-> IF IsGroup(e.fam) \/ e.fam = "co"
-             THEN IF e.fam = "co" THEN (0 :> NewChild(-1, FALSE)) ELSE << >>
+             THEN IF e.fam = "co"
+                    THEN (0 :> IF e.cont = "vec"
+                                 THEN [NewChild(-1, FALSE) EXCEPT !.live = FALSE, !.drops = 1]  \* items handed in, no source object
+                                 ELSE NewChild(-1, FALSE))
+                    ELSE << >>
              ELSE [c \in 0..(e.n - 1) |-> NewChild(-1, FALSE)],
     prod |-> {}, vown |-> << >>, vret |-> {}, vdrp |-> {},
     pc |-> <<>>,            \* child answers of the current poll, in order
@@ -65,8 +72,6 @@ MonInit(e) ==
     errSeen |-> FALSE, okSeen |-> FALSE,
     nyield |-> 0,           \* items / rows yielded so far
     sinceX |-> 0,           \* consecutive yields not from the designated input x
-    outs |-> <<>>,          \* concurrent streams: collected output
-    mapcalls |-> <<>>,      \* concurrent streams: <<layer, item>> of every map closure call
     lastDrop |-> -1,        \* the child dropped most recently
     armed |-> {},           \* names of obligations that were exercised (vacuity guard)
     bad |-> {} ]
@@ -162,6 +167,7 @@ OnCret(m, e) ==
                       !.pc = Append(@, [c |-> c, r |-> e.r, ok |-> e.ok, v |-> e.v]),
                       !.errSeen = @ \/ isErr,
                       !.okSeen = @ \/ isOk,
+                      !.cur = IF m.fam = "co" /\ ch.work /\ isOk /\ hasv THEN (ch.item :> e.v) @@ @ ELSE @,
                       !.errFirst = IF isErr /\ ~m.errSeen THEN e.v ELSE @,
                       !.okFirst = IF firstOk THEN e.v ELSE @]
   IN AddBad(m1, b14)
@@ -376,23 +382,38 @@ C20Ret(m, e) ==
 
 \* Concurrent streams (C13 / C14 / C15): the terminal result
 WorkKids(m) == {c \in Kids(m) : m.ch[c].work}
+TermKids(m) == {c \in WorkKids(m) : m.ch[c].layer = -1}
+\* the source items that must be processed: the first min(take, len)
+Expected(m) ==
+  LET its == m.ch[0].items
+      k == IF m.take >= 0 /\ m.take < Len(its) THEN m.take ELSE Len(its)
+  IN {its[i] : i \in 1..k}
+SourceExhausted(m) == Done(m, 0) \/ (m.take >= 0 /\ Len(m.ch[0].items) >= m.take)
+FinalOf(m, s) == IF s \in DOMAIN m.cur THEN m.cur[s] ELSE s
+CoProp(m) == IF m.term = "for_each" THEN "C13" ELSE IF m.term \in {"try_for_each", "collect_result"} THEN "C14" ELSE "C15"
+
 CoRet(m, e) ==
   IF m.fam # "co" \/ e.r # "ready" THEN {} ELSE
-  LET src == m.ch[0]
-      W == WorkKids(m)
+  LET W == WorkKids(m)
       unfinished == {c \in W : m.ch[c].ans # "done"}
-      items == Range(src.items)
-      processed == {m.ch[c].item : c \in W}
-      \* take(n) in the stack: the source items that must be processed
       fallible == m.term \in {"try_for_each", "collect_result"}
-      P13 == IF m.term = "for_each" THEN "C13" ELSE IF fallible THEN "C14" ELSE "C15" IN
-     V(~fallible /\ unfinished # {}, P13, <<"resolved while per-item futures are still in flight", unfinished>>)
-  \cup V(fallible /\ e.ok /\ unfinished # {}, "C14", <<"Ok while per-item futures are still in flight", unfinished>>)
+      success == ~fallible \/ e.ok
+      exp == Expected(m)
+      hasTermLayer == m.term \in {"for_each", "try_for_each", "collect_result"}
+      termItems == {m.ch[c].item : c \in TermKids(m)}
+      errs == {m.ch[c].items[1] : c \in {d \in W : m.ch[d].ans = "done" /\ ~m.ch[d].ok /\ Len(m.ch[d].items) = 1}}
+      P == CoProp(m) IN
+     V(success /\ unfinished # {}, P, <<"resolved while per-item futures are still in flight", unfinished>>)
+  \cup V(success /\ ~SourceExhausted(m), P, <<"resolved before the source was exhausted">>)
+  \cup V(success /\ hasTermLayer /\ termItems # exp, P, <<"the closure was not invoked exactly for the expected items", termItems, exp>>)
+  \cup V(success /\ \E L \in 0..(m.nmaps - 1) : {m.ch[c].item : c \in {d \in W : m.ch[d].layer = L}} # exp,
+         "C15", <<"a map closure was not invoked exactly once per processed item">>)
   \cup V(fallible /\ e.ok /\ m.errSeen, "C14", <<"Ok although a per-item future failed">>)
   \cup V(fallible /\ ~e.ok /\ ~m.errSeen, "C14", <<"Err although no per-item future failed">>)
-  \cup V(fallible /\ ~e.ok /\ m.errSeen /\
-           e.v \notin {m.ch[c].items[i] : c \in {d \in W : ~m.ch[d].ok}, i \in {1}},
-         "C14", <<"error returned is not one a per-item future returned", e.v>>)
+  \cup V(fallible /\ ~e.ok /\ m.errSeen /\ e.v \notin errs, "C14", <<"error returned is not one a per-item future returned", e.v>>)
+  \cup V(m.term \in {"collect", "collect_result"} /\ success /\
+           (Len(e.out) # Cardinality(exp) \/ Range(e.out) # {FinalOf(m, s) : s \in exp}),
+         IF m.term = "collect" THEN "C15" ELSE "C14", <<"collected output is not the multiset of per-item outputs", e.out>>)
 
 OnRet(m, e) ==
   LET b == C02Ret(m, e) \cup C04Ret(m, e) \cup C05Ret(m, e) \cup C06Ret(m, e) \cup C07Ret(m, e)
@@ -536,28 +557,29 @@ OnView(m, e) ==
   IN AddBad(m, b)
 
 ---------------------------------------------------------------------------
-(* concurrent streams: creation of a per-item work future, map closure calls *)
+(* concurrent streams: creation of a per-item work future (a closure was invoked) *)
 OnWnew(m, e) ==
   LET W == WorkKids(m)
-      inflight == {c \in W : m.ch[c].ans # "done" /\ m.ch[c].drops = 0}
-      src == m.ch[0]
-      pos == IF \E i \in DOMAIN src.items : src.items[i] = e.v
-               THEN CHOOSE i \in DOMAIN src.items : src.items[i] = e.v ELSE 0
-      dup == \E c \in W : m.ch[c].item = e.v
-      P == IF m.term = "for_each" THEN "C13" ELSE IF m.term \in {"try_for_each", "collect_result"} THEN "C14" ELSE "C15"
-      b == V(m.limit > 0 /\ m.term \in {"for_each", "try_for_each"} /\ Cardinality(inflight) + 1 > m.limit,
+      inflight == {c \in TermKids(m) : m.ch[c].ans # "done" /\ m.ch[c].drops = 0}
+      its == m.ch[0].items
+      pos == IF \E i \in DOMAIN its : its[i] = e.src
+               THEN CHOOSE i \in DOMAIN its : its[i] = e.src ELSE 0
+      dup == \E c \in W : m.ch[c].item = e.src /\ m.ch[c].layer = e.layer
+      P == IF e.layer >= 0 THEN "C15" ELSE CoProp(m)
+      b == V(e.layer = -1 /\ m.limit > 0 /\ m.term \in {"for_each", "try_for_each"} /\ Cardinality(inflight) + 1 > m.limit,
              "C13", <<"more closure futures in flight than the concurrency limit", Cardinality(inflight) + 1, m.limit>>)
-           \cup V(dup, P, <<"an item was processed twice", e.v>>)
-           \cup V(pos = 0, P, <<"processed an item the source did not produce", e.v>>)
-           \cup V(e.idx >= 0 /\ pos > 0 /\ e.idx # pos - 1 - e.off, "C15", <<"enumerate index is not the item's position", e.idx, pos - 1>>)
-           \cup V(m.errSeen /\ m.term \in {"try_for_each", "collect_result"}, "C14", <<"an item was processed after an error was observed", e.v>>)
-           \cup V(e.take >= 0 /\ pos > e.take, "C15", <<"take(n) processed an item beyond the first n", pos, e.take>>)
-      nc == [NewChild(-1, TRUE) EXCEPT !.item = e.v, !.idx = e.idx]
-  IN AddBad([m EXCEPT !.ch = (e.c :> nc) @@ m.ch], b)
-
-OnMapcall(m, e) ==
-  LET b == V(<<e.layer, e.v>> \in Range(m.mapcalls), "C15", <<"map closure invoked twice for one item", e.layer, e.v>>)
-  IN AddBad([m EXCEPT !.mapcalls = Append(@, <<e.layer, e.v>>)], b)
+           \cup V(dup, P, <<"a closure was invoked twice for one item", e.layer, e.src>>)
+           \cup V(pos = 0, P, <<"a closure was invoked for an item the source did not produce", e.src>>)
+           \cup V(e.idx >= 0 /\ pos > 0 /\ e.idx # pos - 1, "C15", <<"enumerate index is not the item's source position", e.idx, pos - 1>>)
+           \cup V(m.take >= 0 /\ pos > m.take, "C15", <<"take(n) processed an item beyond the first n", pos, m.take>>)
+           \cup V(e.v < 0, "C02", <<"closure received an invalid value", e.v>>)
+           \cup V(e.v >= 0 /\ e.v \notin m.prod, "C02", <<"closure received a value no child produced", e.v>>)
+           \cup V(e.v \in m.vret \/ e.v \in m.vdrp, "C02", <<"closure received a value that was already returned or dropped", e.v>>)
+      nc == [NewChild(-1, TRUE) EXCEPT !.item = e.src, !.idx = e.idx, !.layer = e.layer]
+      arm == A(m.limit > 0 /\ e.layer = -1 /\ Cardinality(inflight) + 1 = m.limit, "C13.at_limit")
+             \cup A(e.idx >= 0, "C15.enumerate") \cup A(m.take >= 0, "C15.take") \cup A(e.layer >= 0, "C15.map")
+  IN Arm(AddBad([m EXCEPT !.ch = (e.c :> nc) @@ m.ch,
+                          !.vret = IF e.v >= 0 THEN @ \cup {e.v} ELSE @], b), arm)
 
 ---------------------------------------------------------------------------
 MonStep(m, e) ==
@@ -580,7 +602,6 @@ MonStep(m, e) ==
     [] e.e = "remove"  -> OnRemove(m, e)
     [] e.e = "view"    -> OnView(m, e)
     [] e.e = "wnew"    -> OnWnew(m, e)
-    [] e.e = "mapcall" -> OnMapcall(m, e)
     [] OTHER           -> m
 
 RECURSIVE MonSteps(_, _)
